@@ -308,7 +308,14 @@ def exec_c06(cfg, devs):
                 if kind == 'r':
                     acc = cf.mem.read(mems[mi], addr, ln)
                 else:
-                    acc = cf.mem.write(mems[mi], addr, list(_content(addr, ln, i + 1)), flush_queue=(kind == 'wf'))
+                    # the data is the caller's buffer (a list or a bytearray): once write() has returned the caller reuses
+                    # it - what is written is the content at the time of the call
+                    buf = list(_content(addr, ln, i + 1)) if i % 2 == 0 else bytearray(_content(addr, ln, i + 1))
+                    acc = cf.mem.write(mems[mi], addr, buf, flush_queue=(kind == 'wf'))
+                    if i % 3 == 2:
+                        del buf[:]
+                    else:
+                        buf[:] = [0xEE] * len(buf)
             except Exception as e:  # noqa
                 acc = e
             # calls of the two user threads may overlap; they are ordered by completion (= order of the critical sections)
@@ -316,6 +323,14 @@ def exec_c06(cfg, devs):
             info['accepted_by_index'][i] = acc
             ex.log('op_ret', i, repr(acc)[:40])
 
+        if cfg.get('bystander'):
+            # another Crazyflie object is created in the same process at an arbitrary moment (a swarm script connecting
+            # its next member): nothing of it may touch this one's transfers
+            def other_cf():
+                s.lazy_point('env.other_crazyflie', timeout=0.05)
+                info['other'] = Crazyflie()
+            s.spawn(None, other_cf, name='env-other-crazyflie')
+            s.sleep(1e-6, 'let.env.park')
         if cfg.get('second_user'):
             # the last operation comes from a second user thread at an arbitrary moment (lazy: one deviation to fire
             # at any scheduling point, by default once everything before it has settled)
@@ -342,7 +357,14 @@ def exec_c06(cfg, devs):
                 if kind == 'r':
                     acc = cf.mem.read(mems[mi], addr, ln)
                 else:
-                    acc = cf.mem.write(mems[mi], addr, list(_content(addr, ln, i + 1)), flush_queue=(kind == 'wf'))
+                    # the data is the caller's buffer (a list or a bytearray): once write() has returned the caller reuses
+                    # it - what is written is the content at the time of the call
+                    buf = list(_content(addr, ln, i + 1)) if i % 2 == 0 else bytearray(_content(addr, ln, i + 1))
+                    acc = cf.mem.write(mems[mi], addr, buf, flush_queue=(kind == 'wf'))
+                    if i % 3 == 2:
+                        del buf[:]
+                    else:
+                        buf[:] = [0xEE] * len(buf)
             except Exception as e:  # noqa
                 acc = e
             info['accepted'].append(acc)
@@ -606,6 +628,9 @@ def configs(quick):
     for pol in ('handoff', 'eager'):
         for ops in ((('w', 0, 0, 26), ('w', 0, 40, 26)), (('r', 0, 0, 45),), (('w', 0, 0, 45), ('r', 0, 0, 21))):
             out.append({'name': pol + ':' + ','.join('%s%d@%d+%d' % o for o in ops), 'ops': ops, 'fault': True, 'policy': pol})
+    for ops in ((('w', 0, 0, 45), ('w', 0, 60, 26)), (('r', 0, 0, 45),), (('w', 0, 0, 26), ('r', 1, 0, 21))):
+        name = 'other_cf:' + ','.join('%s%d@%d+%d' % o for o in ops)
+        out.append({'name': name, 'ops': ops, 'fault': False, 'bystander': True})
     for ops in ((('w', 0, 0, 26),), (('r', 0, 0, 21),), (('w', 0, 0, 26), ('w', 0, 40, 1))):
         name = 'sendfault:' + ','.join('%s%d@%d+%d' % o for o in ops)
         out.append({'name': name, 'ops': ops, 'fault': False, 'send_fault': True})
